@@ -206,7 +206,9 @@ Heads ==
      RuleHead("R", <<HeadArg("b", At(x, "o")), HeadArg("a", At(y, "n"))>>),
      \* a class whose instances are falsy when their first field is (an inferred instance is a value, not a truth value)
      RuleHead("PF", <<HeadArg("a", At(x, "n")), HeadArg("b", y)>>),
-     RuleHead("PF", <<HeadArg("a", At(y, "s")), HeadArg("b", x), HeadArg("c", LitI(1))>>) >>
+     RuleHead("PF", <<HeadArg("a", At(y, "s")), HeadArg("b", x), HeadArg("c", LitI(1))>>),
+     \* a field with a non-None default given explicitly as None
+     RuleHead("PD", <<HeadArg("a", x), HeadArg("b", y), HeadArg("c", LitNone)>>) >>
 
 (* ---- C18: meaning-preserving rewrites, each applied at every position it fits ----*)
 MirrorOp(op) == CASE op = "lt" -> "gt" [] op = "gt" -> "lt" [] op = "le" -> "ge" [] op = "ge" -> "le" [] OTHER -> op
